@@ -89,7 +89,15 @@ func runSolverCtx(ctx context.Context, a []string) (string, string, float64) {
 	cmd.Run()
 	dt := time.Since(t0).Seconds()
 	s := out.String()
-	first := strings.TrimSpace(strings.SplitN(s, "\n", 2)[0])
+	first := ""
+	for _, l := range strings.Split(s, "\n") {
+		l = strings.TrimSpace(l)
+		if l == "" || strings.HasPrefix(l, "WARNING") || strings.HasPrefix(l, "(warning") {
+			continue
+		}
+		first = l
+		break
+	}
 	switch first {
 	case "unsat", "sat", "unknown":
 		return first, s, dt
@@ -106,13 +114,37 @@ type raceResult struct {
 	dt     float64
 }
 
+// solverSem bounds the number of solver processes that run at the same time: the time limit of a
+// process starts when it gets its slot, so a loaded machine does not turn into timeouts.
+var solverSem = make(chan struct{}, 16)
+
 // race runs the applicable variants concurrently and returns the first conclusive result.
 func race(script, file string, timeoutMs int, cover bool, sliced ...string) (string, string, float64, []string) {
 	qf := !strings.Contains(script, "(forall ") && !strings.Contains(script, "(exists ")
-	ctx, cancel := context.WithTimeout(context.Background(), time.Duration(timeoutMs+1500)*time.Millisecond)
+	parent, cancel := context.WithCancel(context.Background())
 	defer cancel()
-	ch := make(chan raceResult, len(variants)+8)
+	ch := make(chan raceResult, len(variants)+16)
 	n := 0
+	start := func(v *variant, f string, ms int) {
+		n++
+		go func() {
+			select {
+			case solverSem <- struct{}{}:
+			case <-parent.Done():
+				ch <- raceResult{v, "skipped", "", 0}
+				return
+			}
+			defer func() { <-solverSem }()
+			if parent.Err() != nil {
+				ch <- raceResult{v, "skipped", "", 0}
+				return
+			}
+			ctx, c2 := context.WithTimeout(parent, time.Duration(ms+1500)*time.Millisecond)
+			defer c2()
+			r, out, dt := runSolverCtx(ctx, v.cmd(f, ms))
+			ch <- raceResult{v, r, out, dt}
+		}()
+	}
 	for i := range variants {
 		v := &variants[i]
 		if v.qfOnly && !qf {
@@ -134,13 +166,9 @@ func race(script, file string, timeoutMs int, cover bool, sliced ...string) (str
 		if v.maxMs > 0 && ms > v.maxMs {
 			ms = v.maxMs
 		}
-		n++
-		go func(v *variant, f string, ms int) {
-			r, out, dt := runSolverCtx(ctx, v.cmd(f, ms))
-			ch <- raceResult{v, r, out, dt}
-		}(v, f, ms)
+		start(v, f, ms)
 	}
-	// goal-directed slices: fewer assumptions, prove-only
+	// goal-directed slices and pre-instantiated scripts: prove-only
 	for k, sc := range sliced {
 		if sc == "" {
 			continue
@@ -155,11 +183,7 @@ func race(script, file string, timeoutMs int, cover bool, sliced ...string) (str
 				label = "inst+slice"
 			}
 			v := &variant{name: variants[vi].name + "/" + label, cmd: variants[vi].cmd, proveOnly: true}
-			n++
-			go func(v *variant, f string) {
-				r, out, dt := runSolverCtx(ctx, v.cmd(f, timeoutMs))
-				ch <- raceResult{v, r, out, dt}
-			}(v, f)
+			start(v, f, timeoutMs)
 		}
 	}
 	var outs []string
@@ -167,6 +191,9 @@ func race(script, file string, timeoutMs int, cover bool, sliced ...string) (str
 	res, backend := "unknown", ""
 	for k := 0; k < n; k++ {
 		rr := <-ch
+		if rr.r == "skipped" {
+			continue
+		}
 		outs = append(outs, fmt.Sprintf("--- %s: %s (%.2fs)\n%s", rr.v.name, rr.r, rr.dt, truncate(rr.out, 1500)))
 		if rr.dt > total {
 			total = rr.dt
@@ -182,7 +209,12 @@ func race(script, file string, timeoutMs int, cover bool, sliced ...string) (str
 }
 
 // discharge runs all obligations of all functions with a worker pool.
+// skipObl, when set, names obligations that are not sent to the solvers (quick tier: those the lock
+// records as unclaimed).
+var skipObl func(name string) bool
+
 func discharge(results []*FuncResult, workers int, timeoutMs int, seed int, keepDir string) []*Verdict {
+	var skipped []*Verdict
 	tmp, err := os.MkdirTemp("", "arkvc")
 	if err != nil {
 		panic(err)
@@ -200,6 +232,10 @@ func discharge(results []*FuncResult, workers int, timeoutMs int, seed int, keep
 	var jobs []job
 	for _, fr := range results {
 		for _, o := range fr.Obls {
+			if skipObl != nil && !o.Cover && skipObl(o.Name) {
+				skipped = append(skipped, &Verdict{Obl: o, Func: fr.Name, Status: "undecided", Output: "not attempted in the quick tier: unclaimed on the unchanged tree (obligations.lock class u)"})
+				continue
+			}
 			// the full script (every assumption made before the obligation) is the only one whose
 			// "sat" answers are used; the sliced ones can only prove
 			j := job{fr: fr, o: o, id: len(jobs), script: fr.VC.script(o, -1)}
@@ -220,12 +256,12 @@ func discharge(results []*FuncResult, workers int, timeoutMs int, seed int, keep
 			jobs = append(jobs, j)
 		}
 	}
-	verdicts := make([]*Verdict, len(jobs))
+	verdicts := make([]*Verdict, len(jobs), len(jobs)+len(skipped))
 	var wg sync.WaitGroup
 	ch := make(chan job)
 	var mu sync.Mutex
 	if workers > 4 {
-		workers = workers / 4 // each job races several solver processes
+		workers = workers / 2 // each job races several solver processes; solverSem bounds the total
 	}
 	for w := 0; w < workers; w++ {
 		wg.Add(1)
@@ -306,7 +342,7 @@ func discharge(results []*FuncResult, workers int, timeoutMs int, seed int, keep
 	}
 	close(ch)
 	wg.Wait()
-	return verdicts
+	return append(verdicts, skipped...)
 }
 
 func truncate(s string, n int) string {
